@@ -62,6 +62,20 @@ func runC03(g *Grammar, in string, memoRules []bool, noMemo bool, probe *Probe, 
 	if sentence {
 		root = combinator.Sentence(root)
 	}
+	if len(in) >= 2 {
+		// the grammar value has a history: it parsed a shorter input (the first half, cut at a rune
+		// boundary) on a context of its own before
+		h := len(in) / 2
+		for h > 0 && !utf8.RuneStart(in[h]) {
+			h--
+		}
+		ctx0, f0 := NewCtx(in[:h])
+		_, _, _ = root.Parse(ctx0, data.EmptyIntMap, f0.Pos(0))
+		if probe != nil {
+			// the counts belong to the parse under test
+			probe.evals, probe.asks, probe.Calls = map[[2]int]int{}, map[[2]int]int{}, 0
+		}
+	}
 	node, _, err := root.Parse(ctx, data.EmptyIntMap, f.Pos(0))
 	o := outcome{Res: RenderResult(node, 1), Calls: ctx.CallCount()}
 	if err != nil {
